@@ -59,7 +59,16 @@ class CubeRead(Contract):
         out = {'axis_length': compare('==', RW.n, n),
                'wavelengths': c.forall(n, lambda k: RW[k] * r_wav.unit.scale == wav[src(k)] * U['micron'].scale, 'wav'),
                'requested_order': (RW[0] >= RW[n - 1]) if a.order == 'nu' else (RW[0] <= RW[n - 1]),
-               'nu_derived_from_wav': c.attr(result, '_nu') is None}
+               }
+        # the frequencies a consumer sees (the `nu` property: derived from the wavelengths unless stored)
+        r_nu = c.attr(result, '_nu')
+        if r_nu is None:
+            out['frequencies_match_wavelengths'] = True
+        else:
+            RN = c.A(r_nu)
+            from sedvc.units import C_SI
+            out['frequencies_match_wavelengths'] = [compare('==', RN.n, n),
+                                                    c.forall(n, lambda k: RN[k] * r_nu.unit.scale * (RW[k] * r_wav.unit.scale) == Sc(C_SI), 'nu*wav=c')]
         for nm, key in (('_val', 'val'), ('_unc', 'unc')):
             q = c.attr(result, nm)
             if f[key] is None:
